@@ -180,11 +180,17 @@ class Shape:
         self.n_offset_getters = 0
         self.consumed = 0
         self.cond_fields = {}   # field -> cond lean (for traversal checks)
+        self.var_off = {}       # local -> (static byte offset, size) when every earlier field has a fixed size
+        self.var_hints = {}     # local -> set of raw values that sit on a branch of a condition / count
+        self.static_off = 0     # None once a variable-length or conditional field was passed
 
     def var_id(self, v, ty=None):
         if v not in self.vars:
             self.vars[v] = (len(self.vars), ty)
         return self.vars[v][0]
+
+    def hint(self, v, vals):
+        self.var_hints.setdefault(v, set()).update(x for x in vals if x >= 0)
 
     def fid(self, f):
         if f not in self.field_ids:
@@ -203,6 +209,8 @@ def parse_cond(sh, T, c):
             raise Unparsed(f"cond on unbound {v}")
         if sh.vars[v][1] != "u16":
             raise Unparsed(f"compatible(u16) on {sh.vars[v][1]}")
+        k = int(m.group(2))
+        sh.hint(v, [k - 1, k, k + 1, 0, 0xFFFF])
         return f".geU16 {sh.var_id(v)} {m.group(2)}", f"{v}.compatible({m.group(2)}u16)"
     m = re.fullmatch(r"(\w+)\.compatible\(\((\d+)u16,(\d+)u16\)\)", c)
     if m:
@@ -213,6 +221,10 @@ def parse_cond(sh, T, c):
         kind = {"MajorMinor": "compatMM", "Version16Dot16": "compatV16"}.get(ty)
         if not kind:
             raise Unparsed(f"compatible((a,b)) on {ty}")
+        maj, mnr = int(m.group(2)), int(m.group(3))
+        sft = 0 if kind == "compatMM" else 12
+        sh.hint(v, [(maj << 16) | (mnr << sft), (maj << 16) | ((mnr + 1) << sft), (maj << 16) | ((mnr - 1) << sft) if mnr else 0,
+                    ((maj + 1) << 16) | (mnr << sft), (maj << 16) | 0xFFFF, maj << 16])
         return f".{kind} {sh.var_id(v)} {m.group(2)} {m.group(3)}", f"{v}.compatible(({m.group(2)}u16,{m.group(3)}u16))"
     m = re.fullmatch(r"(\w+)\.(contains|intersects)\(([\w:|]+)\)", c)
     if m:
@@ -227,6 +239,7 @@ def parse_cond(sh, T, c):
             if mm.group(1) != sh.vars[v][1]:
                 raise Unparsed(f"flag type {mm.group(1)} vs var type {sh.vars[v][1]}")
             bits |= T.flags[(mm.group(1), mm.group(2))]
+        sh.hint(v, [bits, 0, (1 << (8 * T.size(sh.vars[v][1]))) - 1] + [1 << i for i in range(32) if bits >> i & 1])
         return f".{m.group(2)} {sh.var_id(v)} {bits}", f"{v}.{m.group(2)}({m.group(3)})"
     raise Unparsed(f"condition form: {c}")
 
@@ -383,6 +396,8 @@ def parse_read_body(sh, T, ctx, body, argtype, marker_fields, report):
             sz = T.size(m.group(1))
             sh.steps.append(f".adv {sz}")
             sh.prog.append(("scalar", None, sz, None))
+            if sh.static_off is not None:
+                sh.static_off += sz
             canon = s
         if canon is None:
             m = re.fullmatch(r"let (\w+):(\w+)=cursor\.read\(\)\?;", s)
@@ -395,7 +410,13 @@ def parse_read_body(sh, T, ctx, body, argtype, marker_fields, report):
                 x = sh.var_id(v, ty)
                 sh.steps.append(f".readVar {x} {T.size(ty)}")
                 sh.prog.append(("scalar", None, T.size(ty), x))
+                if sh.static_off is not None:
+                    sh.var_off[v] = (sh.static_off, T.size(ty))
+                    sh.static_off += T.size(ty)
                 canon = s
+        if canon is None:
+            # everything below makes later offsets data dependent
+            sh.static_off = None
         if canon is None:
             m = re.fullmatch(r"let (\w+)_byte_start=(.*)\.then\(\|\|cursor\.position\(\)\)\.transpose\(\)\?;", s)
             if m:
@@ -629,6 +650,8 @@ def parse_getters(sh, T, ctx, body, report):
             sh.getters.append(f"⟨{fid}, .readArray {T.size(el)}⟩")
         elif rd == "VarLenArray::read(self.data.split_off(range.start).unwrap()).unwrap()":
             sh.getters.append(f"⟨{fid}, .varLen⟩")
+        elif rd == "VarLenArray::read(self.data.slice(range).unwrap()).unwrap()":
+            sh.getters.append(f"⟨{fid}, .varLenSlice⟩")
         else:
             mm = re.fullmatch(r"self\.data\.read_with_args\(range,&(.*)\)\.unwrap\(\)", rd)
             if not mm:
@@ -759,6 +782,13 @@ def parse_compute_size(T, ctx, name, argtype, body):
     return [T.size(t) for t in types], lens
 
 # ------------------------------------------------------------------------------------------------
+
+def wf_chain(n):
+    """proof of AllWF (chunk0 ++ chunk1 ++ …) — `++` associates to the left"""
+    e = "chunk0_wf"
+    for k in range(1, n):
+        e = f"AllWF.append ({e}) chunk{k}_wf"
+    return e
 
 def write_if_changed(path, text, written):
     """lake/cargo rebuild on content (lake) or mtime (cargo): never touch a file whose text is unchanged"""
@@ -927,15 +957,22 @@ def main():
             lines.append(f"theorem {sh.lean_name}_wf : WF {sh.lean_name}_shape := by decide +kernel")
             lines.append("")
             obligations += 1
+        lines.append(f"def chunk{k} : List (String × Shape) := [")
+        lines.append(",\n".join(f'  ("{sh.lean_name}", {sh.lean_name}_shape)' for sh in ch))
+        lines.append("]")
+        lines.append(f"theorem chunk{k}_wf : AllWF chunk{k} :=")
+        lines.append("  " + "".join(f"AllWF.cons {sh.lean_name}_wf (" for sh in ch) + "AllWF.nil" + ")" * len(ch))
+        lines.append("")
         lines.append("end FontVerif.Gen.ReadShapes")
         write_if_changed(os.path.join(a.out, f"ReadShapes{k}.lean"), "\n".join(lines) + "\n", written)
     reg = ["/- GENERATED by translate/shapes.py — registry of all generated table readers -/"]
     for k in range(a.chunks):
         reg.append(f"import FontVerif.Gen.ReadShapes{k}")
     reg += ["namespace FontVerif.Gen.ReadShapes", "open FontVerif.Shape", "",
-            "def allShapes : List (String × Shape) := ["]
-    reg.append(",\n".join(f'  ("{sh.lean_name}", {sh.lean_name}_shape)' for sh in shapes))
-    reg.append("]")
+            "def allShapes : List (String × Shape) := " + " ++ ".join(f"chunk{k}" for k in range(a.chunks)), "",
+            "/-- every translated reader is well-formed (hence covered by `C01.shape_getters_safe`) -/",
+            "theorem allShapes_wf : AllWF allShapes :=",
+            "  " + wf_chain(a.chunks)]
     reg.append("")
     reg.append("/-- names of the records with `ComputeSize` (index = id used in `Size.compute`) -/")
     reg.append("def sizeNames : List String := [" + ", ".join(f'"{n}"' for n in ctx.size_names) + "]")
@@ -1005,7 +1042,11 @@ def emit_rust(path, shapes, mods, T):
             rng.append(f"rro(sh.{f}_byte_range())" if cond else f"rr(sh.{f}_byte_range())")
         getters = "".join(f" let _ = t.{g}();" for g in sh.getter_calls)
         minr = " let _ = t.min_byte_range(); let _ = t.min_table_bytes();" if sh.has_min else ""
-        L.append(f'    v.push(Entry {{ name: "{sh.lean_name}", nargs: {len(sh.args)}, arg_sizes: &{[T.size(t) for t in sh.arg_types]}, read: |data, args| {{')
+        argn = [x[0] for x in sh.args]
+        hints = ", ".join(f"({sh.var_off[v][0]}, {sh.var_off[v][1]}, &{sorted(vals)})"
+                          for v, vals in sorted(sh.var_hints.items()) if v in sh.var_off)
+        ahints = ", ".join(f"({argn.index(v)}, &{sorted(vals)})" for v, vals in sorted(sh.var_hints.items()) if v in argn)
+        L.append(f'    v.push(Entry {{ name: "{sh.lean_name}", nargs: {len(sh.args)}, arg_sizes: &{[T.size(t) for t in sh.arg_types]}, hints: &[{hints}], arg_hints: &[{ahints}], read: |data, args| {{')
         L.append(f"        match {call} {{")
         L.append(f"            Err(e) => obs_err(e),")
         L.append(f"            Ok(t) => {{ let sh = t.shape(); let parts: Vec<String> = vec![{', '.join(rng)}]; format!(\"ok {{}}\", parts.join(\" \")) }}")
